@@ -672,6 +672,8 @@ class Interp:
         return None, None
 
     def is_subclass(self, c, target):
+        if isinstance(target, tuple):  # issubclass(c, (A, B)): any of them
+            return any(self.is_subclass(c, t) for t in target)
         return any(x is target for x in self.mro(c))
 
     def getattr(self, v, name, node=None, default=KeyError):
@@ -1942,7 +1944,14 @@ class Interp:
             unk = [r for r in rs if isinstance(r, Unk)]
             return unk[0] if unk else False
         if isinstance(c, Builtin):
-            c = {"bool": bool}.get(c.name, c)
+            c = {"bool": bool, "type": type}.get(c.name, c)
+        if c is type:
+            # "is a class": classes of the analysed program (also the ones the rules make through the metaclasses)
+            if isinstance(v, ClassVal) or (isinstance(v, Obj) and v.kind == "class"):
+                return True
+            if isinstance(v, Opaque):
+                return Unk(f"isinstance({v.tag}, type)")
+            return False
         if isinstance(v, NpInt):
             if isinstance(c, Opaque) and c.tag in ("np.integer", "np.number", "np.signedinteger", "np.generic", "np.int64"):
                 return True
